@@ -369,7 +369,8 @@ pub fn plan_case(id: &str, data: &[u8]) -> Option<Case> {
         let nrec = 1 + r.below(3);
         let recs = (0..nrec).map(|_| { let l = r.below(12); r.bytes(l) }).collect();
         let (wc, wa) = (r.u8(), r.u8());
-        return Some(props::c07::assemble(pool, calls, is_v9, sel, recs, wc, wa));
+        let extra = if r.u8() % 16 == 0 { 70 + r.below(4) * 60 } else { r.below(3) };
+        return Some(props::c07::assemble(pool, calls, is_v9, sel, recs, wc, wa, extra));
     }
     let mut calls: Vec<Vec<PktPlan>> = vec![];
     let mut parsers: Vec<usize> = vec![];
